@@ -21,7 +21,7 @@ THOROUGH = [
 
 def run(ck):
     quick = ck.tier == 'quick'
-    ck.bounds += ['sub-parsers: arbitrary ASCII content up to the longest sentence of each (offset 9 bytes '-24:59:59', extended rule time 10 bytes '-167:59:59', rule day 8 bytes, POSIX rule time 5, name 7); composition: <= 6 arbitrary bytes with abstracted callees (positions, not contents, matter)',
+    ck.bounds += ['sub-parsers: arbitrary ASCII content up to the longest sentence of each (offset 9 bytes "-24:59:59", extended rule time 10 bytes "-167:59:59", rule day 8 bytes, POSIX rule time 5, name 7); composition: <= 6 arbitrary bytes with abstracted callees (positions, not contents, matter)',
                   'outside: non-ASCII bytes beyond the 3-byte real-UTF-8 harness; 10-digit overflow of parse::<i32>; the glue "units = reference and composition = reference composition => whole = reference" is a paper step']
     ck.stubs += ['S_utf8: core::str::from_utf8 := assert ASCII + from_utf8_unchecked (overlay built with deny(unsafe_code) instead of forbid; discharged for <=3 arbitrary bytes by c09_parse_int_real_utf8_len3)',
                  'S_sub(parse_rule_time / parse_rule_time_extended) in c09_rule_block; S_sub(parse_time_zone_designation, parse_offset, parse_rule_block) in c09_composition: consume a nondeterministic number of bytes, return a value in the proven range or an error, log the call']
